@@ -411,7 +411,7 @@ PROPS["C07"]["claim"] += (" EVERY HISTORY (survives_every_history / survives_fro
 PROPS["C10"]["claim"] += (" FILE LEVEL (manifest_read_as_written; Lemmas/FileSpec): for a main manifest whose text is any sequence of written statements "
     "(bindings, rule / pool blocks, build statements, default) with blank lines and comments anywhere, load::read = the fold of the statements' "
     "effects over the loader, in order (stmtLoop_file: noise skipped with one unit of fuel each, every statement read by its byte-level theorem, "
-    "the scanner handed on at exactly the next statement); include / subninja remain correspondence-only.")
+    "the scanner handed on at exactly the next statement); an include / subninja line hands the named file's content to the nested-file parser, to which nested_file_read_as_written applies again (any depth).")
 PROPS["C10"]["claim"] += (" `pool` blocks now have their statement-level theorem too (pool_read_as_written: name and the depth its `depth` binding evaluates to).")
 PROPS["C18"]["claim"] += (" THE OTHER HALF (requested_closure_is_marked, Lemmas/SchedComplete): when run::build reports success every build a requested file "
     "needs through ordering OR validation inputs has left Unknown - joint induction over want_file / want_build / the two input loops with the invariant "
@@ -434,6 +434,10 @@ PROPS["C03"]["claim"] += (" REFLECTION (settled_world_is_left_alone, Lemmas/Worl
     "on the world the real n2 left behind (World.settledC = World.settled + a closedness check of the computed closure) IMPLIES the hypothesis of "
     "repeated_build_does_nothing - so every world on which the monitor said 'settled' (evidence: driver.settledStates) is one for which it is proved "
     "that any further invocation changes and runs nothing.")
+PROPS["C11"]["claim"] += (" FILE LEVEL (top_down_at_file_level, binding_evaluated_where_written, subninja_scope_is_private, include_scope; Lemmas/FileSpec): "
+    "the effect of the first statements of a file is independent of what follows; a binding is evaluated once in the scope of the lines before it; "
+    "after `subninja` the including file keeps its scope; after `include` it continues with afterInclude ie (its own scope in n2 = finding F12, the "
+    "included file's final scope in the specification).")
 PROPS["C09"]["claim"] += (" ACROSS INVOCATIONS, FOR EVERY LOG (Lemmas/WorkDisc): start-up (applyLog, records WITH dependency lists) only interns source "
     "files and attaches to each step exactly the dependency list and signature of the LATEST record attributed to it "
     "(remembered_by_every_later_invocation, nothing_remembered_without_record); a success's record is the latest until the next one "
